@@ -38,6 +38,7 @@ type VerifyOpts struct {
 
 func (e *Engine) GenVC(fn *ssa.Function, opts VerifyOpts) (res *FuncVC) {
 	res = &FuncVC{Fn: fn, Name: shortFuncName(fn)}
+	e.setCtx(fn)
 	vc := NewVC(e, fn)
 	vc.closures = map[string]*closureInfo{}
 	vc.callCount = map[string]int{}
@@ -436,6 +437,7 @@ func synthContract(e *Engine, fn *ssa.Function, fr *Frame, invs map[string]strin
 // verified against its own contract separately).
 func (e *Engine) GenRefinementVC(ikey string, ict *Contract, m *ssa.Function, ifaceT types.Type) (res *FuncVC) {
 	res = &FuncVC{Fn: m, Name: shortFuncName(m) + "~" + strings.ReplaceAll(ikey, repoModule+"/", "")}
+	e.setCtx(m)
 	vc := NewVC(e, m)
 	vc.closures = map[string]*closureInfo{}
 	vc.callCount = map[string]int{}
@@ -574,4 +576,26 @@ func (e *Engine) qualifySpecName(fn *ssa.Function, name string) string {
 		return p.Path() + "." + name[k+1:]
 	}
 	return name
+}
+
+// setCtx selects the verification context (package of the function under verification) for contract lookups, and
+// drops analysis results that depend on it.
+func (e *Engine) setCtx(fn *ssa.Function) {
+	p := ""
+	f := fn
+	if f != nil && f.Pkg == nil && f.Origin() != nil {
+		f = f.Origin()
+	}
+	if f != nil && f.Pkg != nil {
+		p = f.Pkg.Pkg.Path()
+	}
+	if p != e.ctxPkg {
+		e.ctxPkg = p
+		if len(e.CtxContracts) > 0 {
+			// the allocation / ghost analyses consult contracts: their memo tables are per context
+			allocMemo = map[*ssa.Function]*allocInfo{}
+			ghostMemo = map[*ssa.Function]*ghostInfo{}
+			allocVisits, ghostVisits = 0, 0
+		}
+	}
 }
